@@ -31,6 +31,21 @@ Theorem C01_not_expired : forall verify v ks t m now c alg,
 Proof. exact id_token_not_expired. Qed.
 Print Assumptions C01_not_expired.
 
+(* Claim times and the clock are unbounded integers (Z) - the model's arithmetic
+   is the ground truth for times of ANY magnitude (year 1, negative NumericDates,
+   2262 and later, +-2^53): nothing wraps around.  A zero or negative exp is never
+   accepted after 1970; the expiry check is exactly now + offset < exp. *)
+Theorem C01_negative_exp_rejected : forall verify v ks t m now c alg,
+  verify_id_token verify v ks t m now = Accept c alg ->
+  (0 <= v_offset v)%Z -> (0 <= now)%Z -> (0 < c_exp c)%Z.
+Proof. exact negative_exp_rejected. Qed.
+Print Assumptions C01_negative_exp_rejected.
+
+Theorem C01_expiration_exact : forall c off now,
+  chk_expiration c off now = None <-> (now + off < instant (c_exp c))%Z.
+Proof. exact expiration_exact. Qed.
+Print Assumptions C01_expiration_exact.
+
 (* acceptance is exactly: parsed, signature check passed, all conditions hold *)
 Theorem C01_accept_iff : forall verify v ks t m now c alg,
   verify_id_token verify v ks t m now = Accept c alg <->
